@@ -181,7 +181,8 @@ func convertSchema(s string, t *VirtualTable) error {
 		if i > 0 {
 			s += ", "
 		}
-		s += c.Name
+		// quoted, so that names given in quotes (spaces, keywords) are declared as given
+		s += `"` + strings.ReplaceAll(c.Name, `"`, `""`) + `"`
 		if c.DefaultType != "" {
 			s += " " + c.DefaultType
 		}
